@@ -698,7 +698,10 @@ def shrink_failures(chk, area, c_exe, oracle, enabled=None, limit=3):
         return (w, outs[0]) if w else None
     done = []
     # prefer short witnesses
-    order = sorted(range(len(chk.oracle_failures)), key=lambda i: len(chk.oracle_failures[i]["script"]))
+    order = sorted((i for i in range(len(chk.oracle_failures))
+                    if chk.oracle_failures[i].get("area") == area.NAME
+                    and "minimised_from" not in chk.oracle_failures[i]),
+                   key=lambda i: len(chk.oracle_failures[i]["script"]))
     for i in order[:limit]:
         f = chk.oracle_failures[i]
         cur = list(f["script"])
